@@ -8,7 +8,7 @@
    notification calls.  [log g x o f] is the global event log of one service life time as
    otelcol/collector.go drives it (Service.Start; Service.Shutdown also after a failed Start);
    [before a b l]: at every occurrence of b in l, a has occurred earlier. *)
-From Verif Require Import Common.Base C10.Model C10.Proofs1 C10.Proofs2 C10.Proofs3 C10.Proofs4 C10.Proofs5 C10.Proofs6.
+From Verif Require Import Common.Base C10.Model C10.Proofs1 C10.Proofs2 C10.Proofs3 C10.Proofs4 C10.Proofs5 C10.Proofs6 C10.Proofs7 C10.Proofs8.
 
 (* the checker that validates the order taken from the implementation is sound *)
 Theorem is_topo_sound : forall ns es o, is_topo ns es o = true ->
@@ -165,6 +165,61 @@ Theorem reload_first_generation : forall pf g0 rest,
   exists tl, map fst (collector_run_reload pf (g0 :: rest)) = gen_log g0 :: tl.
 Proof. exact l_reload_first. Qed.
 Print Assumptions reload_first_generation.
+
+(* ---- the topological sort as an algorithm (computeOrder, topo.Sort in StartAll / ShutdownAll / Build) ---
+   [topo_sort ns es pref]: pref = the iteration order the implementation happens to use; ANY pref. *)
+
+(* every output of the algorithm is a valid topological order *)
+Theorem topo_sort_sound : forall ns es pref o, edges_in ns es -> NoDup ns ->
+  topo_sort ns es pref = Sorted o -> is_topo ns es o = true.
+Proof. exact l_topo_sort_sound. Qed.
+Print Assumptions topo_sort_sound.
+
+(* ... and every valid order is an output (take the order itself as the iteration order): the
+   algorithm has exactly the freedom "any valid order" *)
+Theorem topo_sort_complete : forall ns es o, is_topo ns es o = true -> NoDup ns -> topo_sort ns es o = Sorted o.
+Proof. exact l_topo_sort_complete. Qed.
+Print Assumptions topo_sort_complete.
+
+Theorem topo_sort_outputs_are_the_valid_orders : forall ns es o, edges_in ns es -> NoDup ns ->
+  ((exists pref, topo_sort ns es pref = Sorted o) <-> is_topo ns es o = true).
+Proof. exact l_topo_sort_exact. Qed.
+Print Assumptions topo_sort_outputs_are_the_valid_orders.
+
+(* a rejected graph is rejected with an error naming a real cycle (consecutive nodes joined by
+   edges, the last joined to the first) ... *)
+Theorem topo_sort_names_cycle : forall ns es pref c, topo_sort ns es pref = Cyclic c -> is_cycle es c = true.
+Proof. exact l_topo_sort_cycle. Qed.
+Print Assumptions topo_sort_names_cycle.
+
+(* ... and a graph with a cycle has no valid order at all (so rejecting it is the only correct answer) *)
+Theorem cycle_excludes_order : forall ns es c o, is_cycle es c = true -> is_topo ns es o = true -> False.
+Proof. exact cycle_no_order. Qed.
+Print Assumptions cycle_excludes_order.
+
+(* hence the ordering theorems need no hypothesis on the orders: whatever orders the algorithm
+   computes for a well-formed topology satisfy [orders_ok] *)
+Theorem computed_orders_ok : forall g x pe ps pp o, wf_topology g x ->
+  orders_by g x pe ps pp = Some o -> orders_ok g x o = true.
+Proof. exact l_orders_by_ok. Qed.
+Print Assumptions computed_orders_ok.
+
+Theorem start_downstream_first_computed : forall g x pe ps pp o f, wf_topology g x ->
+  orders_by g x pe ps pp = Some o ->
+  forall u v, path (edges g) u v -> In u (comps g) -> In v (comps g) ->
+  before (CStart v) (CStart u) (log g x o f) /\ before (CStop u) (CStop v) (log g x o f).
+Proof.
+  exact (fun g x pe ps pp o f W E u v P U V =>
+           conj (p_start_downstream_first g x o f (l_orders_by_ok g x pe ps pp o W E) u v P U V)
+                (p_stop_upstream_first g x o f (l_orders_by_ok g x pe ps pp o W E) u v P U V)).
+Qed.
+Print Assumptions start_downstream_first_computed.
+
+(* translator obligation: which node types of the component graph are components (not skipped by
+   StartAll / ShutdownAll) — the model's table equals the method sets read from the current source *)
+Theorem kind_is_comp_generated : forall k, kind_is_comp k = implements_component (generated_method_set k).
+Proof. exact l_kind_is_comp_generated. Qed.
+Print Assumptions kind_is_comp_generated.
 
 (* sharedcomponent: for EVERY script of Start / Shutdown calls on one shared Component the inner
    component is started at most once and shut down at most once; once as soon as the script
